@@ -89,17 +89,25 @@ CHECKS = {
 }
 # what later rounds added to each check (appended to the level text)
 ADD = {
- "C01": "Later additions: request 1 plus a prefix of request 2 in one write (7 cut points; response 1 must arrive before the rest is sent); idle-timeout family (SetTimeout, gaps below the timeout whose sum exceeds it); interleaved client connections; origin responses split into several writes.",
- "C02": "Later additions: composable behaviours (dial error, round-trip error, skip, one-/multi-line modifier errors, hijack, skip combined with the other context marks in both orders, a RoundTripper answering on req.Clone()), pipelined clients; auxiliary free-running -race pass with a real proxy asserting id uniqueness under parallel load.",
- "C03": "Later additions: configuration dimension {no modifier, har.Logger, martianlog.Logger, marbl modifier} in the truncation family; two-write cuts of the origin's bytes; second request already pipelined when the fault happens.",
- "C04": "Later additions: simultaneous chunks above the bufio size in both directions; silent periods of 11 s / 200 s of virtual time before the last chunks (deadlines left armed), all routes.",
+ "C20": "Later additions: Audit additions (checks/c20/AUDIT.md): small-domain grid, sizes at the code's constants, histories on one modifier instance, upstream 206/416/404/chunked/multipart responses, boundaries, extended path alphabet with sibling directories and several constructors.",
+ "C12": "Later additions: Audit additions (checks/c12/AUDIT.md): url.RegexFilter / header.RegexFilter / port.Filter alphabets, extreme priorities and wide groups, wrong-type JSON and near-miss scopes, non-POST methods and failing request bodies, alternative scope spellings.",
+ "C11": "Later additions: Audit additions (checks/c11/AUDIT.md): the real h2 relay end to end (wire family), empty non-final DATA frames, duplex streams, grpc-encoding header variants.",
+ "C06": "Later additions: Audit additions (checks/c06/AUDIT.md): reuse of one tls.Config, expiry via SNI, setters between requests, TLS 1.2 clients, edge spellings, failing signers, more race scenarios.",
+ "C05": "Later additions: Audit additions (checks/c05/AUDIT.md): nested TLS, transparent layerings, authority spellings, request/response traffic shapes through the decrypted connection, upstream and handshake failures, mitm.Config variants, downstream proxy.",
+ "C18": "Later additions: Several shapes with disjoint URL patterns; keep-alive sequences of matching / other-URL requests on one shaped connection; response heads larger than the write buffer; concurrent connections released into their shaped writes at the same instant.",
+ "C17": "Later additions: Long logs (1..200/1000 completed exchanges plus a pending one, then every short suffix); unlock scheduling points in the all-interleavings part; the race pass exports while recording and serialises exported logs while pending entries complete.",
+ "C08": "Later additions: Header blocks larger than a frame (default and raised maximum frame size, with priority, duplex and stalled-receiver variants), receivers shrinking their header table, PUSH_PROMISE behind window-blocked DATA, connection-window blocking; oracles: no frame above the announced maximum frame size, no frame inside an open header block.",
+ "C01": "Later additions: request 1 plus a prefix of request 2 in one write (7 cut points; response 1 must arrive before the rest is sent); idle-timeout family (SetTimeout, gaps below the timeout whose sum exceeds it); interleaved client connections; origin responses split into several writes. Audit additions (checks/c01/AUDIT.md): target shapes and extension methods, 24 more statuses, HTTP/1.0 origins, trailers, interim responses, downstream proxy, sequential client connections, client half-close, Expect: 100-continue without an answer.",
+ "C02": "Later additions: composable behaviours (dial error, round-trip error, skip, one-/multi-line modifier errors, hijack, skip combined with the other context marks in both orders, a RoundTripper answering on req.Clone()), pipelined clients; auxiliary free-running -race pass with a real proxy asserting id uniqueness under parallel load. A downstream proxy in blind mode; skip-round-trip on a blind CONNECT; sessions and pools start empty in every execution (vsync.Pool).",
+ "C03": "Later additions: configuration dimension {no modifier, har.Logger, martianlog.Logger, marbl modifier} in the truncation family; two-write cuts of the origin's bytes; second request already pipelined when the fault happens. Audit additions (checks/c03/AUDIT.md): origins failing during the upload, repeated faults on one connection, downstream-proxy answers cut at every offset, two intercepted requests per TLS session, silent clients against the proxy timeout, unsolicited bytes after a complete response.",
+ "C04": "Later additions: simultaneous chunks above the bufio size in both directions; silent periods of 11 s / 200 s of virtual time before the last chunks (deadlines left armed), all routes. The client resets or closes while the proxy is still dialling.",
  "C07": "Later additions: the idle and mid-head points reached on a kept-alive connection, with the partial head pipelined behind the previous request, and with a client that never completes the head.",
- "C09": "Later additions: histories after a third stream used up 65531/65535 bytes of the connection window (connection window is the binding constraint), MAX_FRAME_SIZE raise/lower/default histories, bursts toward a stalled receiver.",
- "C10": "Later additions: write failures whose failing write is the WINDOW_UPDATE acknowledging a DATA frame or the forwarded DATA itself, with a PING pending in the other direction for the same peer.",
+ "C09": "Later additions: histories after a third stream used up 65531/65535 bytes of the connection window (connection window is the binding constraint), MAX_FRAME_SIZE raise/lower/default histories, bursts toward a stalled receiver. Cross-talk histories (the DATA sender's own SETTINGS / WINDOW_UPDATE), credit granted before the first frame relayed on a stream, SETTINGS frames repeating INITIAL_WINDOW_SIZE.",
+ "C10": "Later additions: write failures whose failing write is the WINDOW_UPDATE acknowledging a DATA frame or the forwarded DATA itself, with a PING pending in the other direction for the same peer. Sessions ending before they are set up (mid preface, before SETTINGS).",
  "C13": "Later additions: API-marked requests whose query string ParseForm rejects; aliasing scenarios for nested MultiErrors.",
- "C14": "Later additions: auxiliary free-running -race pass pushing concurrent messages through one spec stack with direct assertions.",
- "C15": "Later additions: failing-body family (every message of a sub-space cut at every structural offset of its body, sender closes or resets; pass-through variants must equal the unlogged twin, buffering variants must still fail and write only a prefix); multi-member gzip bodies; context-operation histories around skip-logging.",
- "C16": "Later additions: multi-member gzip bodies.",
+ "C14": "Later additions: auxiliary free-running -race pass pushing concurrent messages through one spec stack with direct assertions. Audit additions (checks/c14/AUDIT.md): interleaved exchanges on one stack, the user group, several stack instances, Connection / framing spellings, environments, keep-alive sequences and CONNECT through the real proxy.",
+ "C15": "Later additions: failing-body family (every message of a sub-space cut at every structural offset of its body, sender closes or resets; pass-through variants must equal the unlogged twin, buffering variants must still fail and write only a prefix); multi-member gzip bodies; context-operation histories around skip-logging. Audit additions (checks/c15/AUDIT.md): edge message space, histories through one logger / one reused MessageView, stacks of two loggers on one message.",
+ "C16": "Later additions: multi-member gzip bodies. Audit additions (checks/c16/AUDIT.md): wider body space in quick, independent and repeated option settings, sessions of 3-4 exchanges through one logger with different response arrival orders, judged corrupt gzip.",
  "C19": "Later additions: concurrent readers of 40000/70000-byte bodies with 32 KiB / 64 KiB buffers (frames of tens of kilobytes).",
 }
 NOT_YET = "check not built yet in this round (planned, see DESIGN.md section 7); not claimed"
